@@ -336,6 +336,8 @@ Definition s_manifest : str := g_manifest_name.                                 
 Definition s_metainf : str := [77;69;84;65;45;73;78;70;47].                                  (* META-INF/ *)
 Definition s_SF : str := [46;83;70].                                                         (* .SF *)
 Definition s_RSA : str := [46;82;83;65].                                                     (* .RSA *)
+Definition s_DSA : str := [46;68;83;65].                                                     (* .DSA *)
+Definition s_EC : str := [46;69;67].                                                         (* .EC *)
 Definition s_class : str := [46;99;108;97;115;115].                                          (* .class *)
 Definition s_minecraft : str := [110;101;116;47;109;105;110;101;99;114;97;102;116;47].       (* net/minecraft/ *)
 Definition manifest_bytes : list N := g_manifest_bytes.
